@@ -117,3 +117,8 @@ Definition sampler_draw (clamp : bool) (r : Z) : option unit :=
   let u1 := if u <? 1 then 1 else u in
   let n := if 9223372036854775808 <=? u1 then u1 - two64 else u1 in   (* int(rate) *)
   if n <=? 0 then None else Some tt.
+
+(* DirectTransmission.dispatchStaleBatches: d.Clock.NewTicker(d.batchTimeout / 4) (Go integer division truncates
+   towards zero); known finding: an accepted BatchTimeout below 4ns gives interval 0 *)
+Definition batch_ticker (batch_timeout : Z) : option unit :=
+  let i := Z.quot batch_timeout 4 in if i <=? 0 then None else Some tt.
